@@ -667,3 +667,39 @@ func (s *Session) CallerIdle() bool {
 	_, c := s.libOwned()
 	return c != nil && c.Parked()
 }
+
+// WaitBlocked waits until the scripted handler call blocks. It gives up when
+// the Stream call returns, when maxWait passes, or as soon as nothing can
+// happen any more: the master has sent all it is going to send, the library's
+// reader waits for the network and the Stream caller is parked (the
+// transaction the script waits for was never delivered).
+func (s *Session) WaitBlocked(rn *Running, maxWait time.Duration) bool {
+	deadline := time.After(maxWait)
+	tick := time.NewTicker(25 * time.Millisecond)
+	defer tick.Stop()
+	idle := 0
+	for {
+		select {
+		case <-s.Blocked():
+			return true
+		case <-rn.Done():
+			return false
+		case <-deadline:
+			return false
+		case <-tick.C:
+			if len(s.M.Conns()) > 0 && s.masterQuiet() && s.ReaderState() == "network" && s.CallerIdle() {
+				idle++
+				if idle >= 8 {
+					select {
+					case <-s.Blocked():
+						return true
+					default:
+					}
+					return false
+				}
+			} else {
+				idle = 0
+			}
+		}
+	}
+}
